@@ -168,8 +168,9 @@ def run(ck):
         strip = lambda ds: [(d["code"], d["span"], d["msg"], tuple(d["notes"])) for d in ds]
         if strip(diags) != strip(bdiags) or any(d["level"] != b["level"] for d, b in zip(diags, bdiags) if d["code"] != kind):
             ck.violation("placement-matrix", "suppression-changes-other-diagnostics", bytes.fromhex(line.split(" ")[2]).decode(), repr(strip(bdiags))[:300], repr(strip(diags))[:300])
-        if oo.split(" || ")[0].replace("allow", "x::ow") != bb.split(" || ")[0].replace("allow", "x::ow") and False:
-            pass
+        if oo.split(" || ")[0].replace("allow", "x::ow") != bb.split(" || ")[0]:
+            ck.violation("placement-matrix", "suppression-changes-the-ast", bytes.fromhex(line.split(" ")[2]).decode(), "the same AST but for the attribute's directive", "the dumps differ",
+                         detail="with allow: %s\nwithout:    %s" % (oo.split(" || ")[0][:400], bb.split(" || ")[0][:400]))
         # 3. model: level of every diagnostic from its recorded scope and the attributes the AST shows
         ml = model_line(files_sx, diags, cli)
         mlines.append(ml)
@@ -272,6 +273,8 @@ def random_programs(ck):
         if strip(diags) != strip(bdiags) or any(d["level"] != b["level"] for d, b in zip(diags, bdiags) if d["code"].startswith("E") and d["code"][1:].isdigit()):
             ck.violation("random-programs", "suppression-changes-other-diagnostics", shown, repr(strip(bdiags))[:300], repr(strip(diags))[:300])
             continue
+        if oo.split(" || ")[0].replace("allow", "x::ow") != bb.split(" || ")[0]:
+            ck.violation("random-programs", "suppression-changes-the-ast", shown, "the same AST but for the attribute's directive", "the dumps differ")
         if any(b["level"] == "Allowed" for b in bdiags):
             ck.violation("random-programs", "silenced-without-allow", shown, "no Allowed diagnostic without allow", repr([(b["code"], b["level"]) for b in bdiags])[:300])
         mlines.append(model_line(files_sx, diags, [c for c in cli]))
